@@ -206,6 +206,10 @@ func visitInstr(fr *frame, instr ssa.Instruction) continuation {
 			break
 		}
 		if instr.Op == token.MUL {
+			if sr, ok := fr.get(instr.X).(*symRef); ok {
+				fr.env[instr] = i.selectElem(sr.idx, sr.elems)
+				break
+			}
 			addr := fr.get(instr.X).(*value)
 			if addr == nil {
 				panic(targetPanic{v: i.runtimeErr("invalid memory address or nil pointer dereference")})
@@ -270,6 +274,10 @@ func visitInstr(fr *frame, instr ssa.Instruction) continuation {
 		i.sched.send(ch, fr.get(instr.X), fr.where())
 
 	case *ssa.Store:
+		if sr, ok := fr.get(instr.Addr).(*symRef); ok {
+			i.storeSymRef(sr, fr.get(instr.Val))
+			break
+		}
 		addr := fr.get(instr.Addr).(*value)
 		if addr == nil {
 			panic(targetPanic{v: i.runtimeErr("invalid memory address or nil pointer dereference")})
@@ -367,6 +375,11 @@ func visitInstr(fr *frame, instr ssa.Instruction) continuation {
 		idx := fr.get(instr.Index)
 		switch x := x.(type) {
 		case []value:
+			if s, ok := idx.(*Sym); ok && scalarElems(x) {
+				i.symBoundsCheck(s, len(x))
+				fr.env[instr] = &symRef{elems: x, idx: s}
+				break
+			}
 			k := i.indexFor(fr, idx, len(x))
 			fr.env[instr] = &x[k]
 		case *value: // *array
@@ -374,6 +387,11 @@ func visitInstr(fr *frame, instr ssa.Instruction) continuation {
 				panic(targetPanic{v: i.runtimeErr("invalid memory address or nil pointer dereference")})
 			}
 			a := (*x).(array)
+			if s, ok := idx.(*Sym); ok && scalarElems(a) {
+				i.symBoundsCheck(s, len(a))
+				fr.env[instr] = &symRef{elems: a, idx: s}
+				break
+			}
 			k := i.indexFor(fr, idx, len(a))
 			fr.env[instr] = &a[k]
 		default:
